@@ -429,7 +429,7 @@ func (g *Gen) Actions(fail func(t *rapid.T, err error)) map[string]func(*rapid.T
 			return x.Rename(fd, fn, td, tn)
 		}),
 		// a directory (often one with entries of its own) moves to another parent, under a new name or over an
-		// existing one; never into its own subtree (known finding KF3)
+		// existing one - or into itself or a directory below it, which must be refused
 		"movedir": do("MOVEDIR", func(t *rapid.T) error {
 			var srcs []*MNode
 			for _, d := range g.unskipped(x.M.LiveKind(nt.NF3DIR)) {
@@ -443,7 +443,8 @@ func (g *Gen) Actions(fail func(t *rapid.T, err error)) map[string]func(*rapid.T
 			src := pick(t, srcs, "srcdir")
 			var tds []*MNode
 			for _, d := range g.unskipped(x.M.LiveKind(nt.NF3DIR)) {
-				if d != src.Parent && !x.RenameIsKnownFinding(src.Parent, src.Name, d) {
+				// (the directory itself and the directories below it included: the server must refuse those)
+				if d != src.Parent {
 					tds = append(tds, d)
 				}
 			}
